@@ -4,3 +4,7 @@ import TsVerif.C10.Props
 #print axioms TsVerif.C10.range_edit_eq_phi
 #print axioms TsVerif.C10.edit_marks_root
 #print axioms TsVerif.C10.edit_untouched_same
+#print axioms TsVerif.C10.edit_kept_shifted_bytes
+#print axioms TsVerif.C10.edit_preserves_tiling
+#print axioms TsVerif.C10.edits_preserve_tiling
+#print axioms TsVerif.C10.wfbCheck_sound
